@@ -273,7 +273,8 @@ func checkConflictRemoval(c *Ctx, rule string) {
 	// self recursion
 	self := false
 	for _, cs := range p.callers(rc) {
-		if cs.Parent() == rc {
+		// directly, or from a private part of it (mutual recursion through an extracted loop)
+		if u := outermost(cs.Parent()); u == rc || (u != nil && p.inRegion(rc, u)) {
 			self = true
 		}
 	}
